@@ -62,9 +62,10 @@ def run_case(cs):
     tr['sread1'] = tr['sread2'] = empty
     try:
         st = cs['st']
+        indep = cs.get('indep', 'Start_UTC')
         f = pnc.PseudoNetCDFFile()
         f.createDimension('POINTS', st['nrec'])
-        tv = f.createVariable('Start_UTC', 'd', ('POINTS',))
+        tv = f.createVariable(indep, 'd', ('POINTS',))
         tv[:] = cs['t']
         tv.units = cs['tunit']
         for i in range(st['nv']):
@@ -77,7 +78,7 @@ def run_case(cs):
         f.SDATE = '2012, 05, 17'
         f.WDATE = '2012, 06, 01'
         f.TIME_INTERVAL = '1'
-        f.INDEPENDENT_VARIABLE = 'Start_UTC'
+        f.INDEPENDENT_VARIABLE = indep
         f.PI_NAME = 'Doe, Jane'
         f.ORGANIZATION_NAME = 'VERIF'
         f.SOURCE_DESCRIPTION = 'generated'
@@ -85,7 +86,7 @@ def run_case(cs):
         f.VOLUME_INFO = '1, 1'
         for k, val in cs['atts']:
             setattr(f, k, val)
-        tr['orig'] = content_of(f, 'Start_UTC')
+        tr['orig'] = content_of(f, indep)
         p1 = os.path.join(tmp, 'w1.ict')
         try:
             ncf2ffi1001(f, p1).close()
@@ -108,7 +109,7 @@ def run_case(cs):
             pass
         try:
             g = ffi1001(p1)
-            tr['read1'] = content_of(g, 'Start_UTC')
+            tr['read1'] = content_of(g, indep)
         except Exception as ex:
             tr['rres'] = 'raised'
             tr['rexc'] = repr(ex)[:100]
@@ -116,14 +117,14 @@ def run_case(cs):
         try:
             a = pnc.pncopen(p1)
             tr['autocls'] = type(a).__name__
-            tr['readauto'] = content_of(a, 'Start_UTC')
+            tr['readauto'] = content_of(a, indep)
         except Exception as ex:
             tr['autocls'] = 'raised:' + type(ex).__name__
         try:
             p2 = os.path.join(tmp, 'w2.ict')
             ncf2ffi1001(g, p2).close()
             h = ffi1001(p2)
-            tr['read2'] = content_of(h, 'Start_UTC')
+            tr['read2'] = content_of(h, indep)
         except Exception as ex:
             tr['rres2'] = 'raised'
             tr['rexc2'] = repr(ex)[:100]
@@ -140,10 +141,10 @@ def run_case(cs):
                 with open(p3, 'w') as fo:
                     fo.write('\n'.join(lines))
                 g3 = ffi1001(p3)
-                tr['sread1'] = content_of(g3, 'Start_UTC', sc)
+                tr['sread1'] = content_of(g3, indep, sc)
                 p4 = os.path.join(tmp, 'w4.ict')
                 ncf2ffi1001(g3, p4).close()
-                tr['sread2'] = content_of(ffi1001(p4), 'Start_UTC', sc)
+                tr['sread2'] = content_of(ffi1001(p4), indep, sc)
             except Exception as ex:
                 tr['scaled']['res'] = 'raised'
                 tr['scaled']['exc'] = '%s: %s' % (type(ex).__name__,
@@ -162,6 +163,7 @@ def gen_case(rnd, st):
     if not scaled:
         mags += [12345.678, 9.999999e5]
     vars_ = []
+    indep = rnd.choice(['Start_UTC', 'Start_UTC', 'Time_Start', 'UTC'])
     for i in range(nv):
         # codes in use: short ones, the wide ICARTT code with 7 significant
         # digits, a fractional one, a large positive one
@@ -176,8 +178,13 @@ def gen_case(rnd, st):
                 other = [c for c in (-999, -9999, -99999, -888) if c != miss]
                 vals[-1] = float(rnd.choice(other))
                 mask[-1] = 0
-        vars_.append({'name': rnd.choice(['O3', 'NO2', 'CO', 'T', 'P', 'RH'])
-                      + '_%d' % i, 'unit': rnd.choice(['ppbv', 'K', 'hPa',
+        # names: also ones that occur inside the independent variable's name
+        nm = rnd.choice(['O3', 'NO2', 'CO', 'T', 'P', 'RH', 'UTC', 'Start',
+                         'Time', 'U', 'S', 'Stop_UTC', 'art'])
+        if rnd.random() < 0.5 or nm in [v['name'] for v in vars_] \
+                or nm == indep:
+            nm += '_%d' % i
+        vars_.append({'name': nm, 'unit': rnd.choice(['ppbv', 'K', 'hPa',
                                                        'percent']),
                       'missing': miss, 'vals': vals, 'mask': mask})
     names = rnd.sample(ATTRS[:7], st['natt'])
@@ -185,6 +192,7 @@ def gen_case(rnd, st):
     t0 = rnd.choice([0, 36000, 86000])
     return {'st': st, 't': [t0 + 10 * k for k in range(nrec)],
             'tunit': rnd.choice(['seconds', 's']), 'vars': vars_,
+            'indep': indep,
             'atts': atts,
             # scale factors of the dependent variables for the scaled-text
             # stage (half of the cases)
